@@ -94,6 +94,7 @@ class Gen:
         self.unl = [False, False]
         self.seq = 0
         self.lay = [None] * NOBJ        # layout of an rc object that has not replaced its program yet
+        self.robj = [False] * NOBJ      # clone of an rc program (no callbacks)
         self.late = False       # second half of the history: the blueprints may be unloaded
 
     def new(self, kind, size=0):
@@ -213,6 +214,7 @@ class Gen:
                 self.obj[o] = self.new("obj")
                 self.handle[o] = True
                 self.lay[o] = None
+                self.robj[o] = False
             self.emit("newobj %d" % o)
         elif k == "newobjr":
             o, L = r.below(NOBJ), r.below(len(LAYOUTS))
@@ -220,6 +222,7 @@ class Gen:
                 self.obj[o] = self.new("obj")
                 self.handle[o] = True
                 self.lay[o] = L
+                self.robj[o] = True
             self.emit("newobjr %d %d" % (o, L))
         elif k == "replace":
             ro = [o for o in self.alive_objs() if self.lay[o] is not None]
@@ -365,13 +368,18 @@ class Gen:
                     S[d] = self.new("str", cur.size - (j - i + 1) + len(w))
                 self.emit("srange %d %d %d %s" % (d, i, j, w))
         elif k == "inp":
-            ao = self.alive_objs()
+            ao = [o for o in self.alive_objs() if self.lay[o] is None and not self.robj[o]]
             o = r.choice(ao) if ao and r.chance(9, 10) else r.below(NOBJ)
+            rearm = r.chance(1, 3)
             if o in ao and not self.inp:
-                self.inp = True
-            self.emit("inp %d %d %d" % (o, self.pick_slot(), self.pick_slot()))
+                self.inp = (o, rearm)
+            self.emit("%s %d %d %d" % ("inpr" if rearm else "inp", o, self.pick_slot(), self.pick_slot()))
         elif k == "input":
-            self.inp = False
+            # a re-arming callback of a live owner leaves a new input_to pending
+            if self.inp and self.inp is not True and self.inp[1] and self.obj[self.inp[0]] is not None and self.obj[self.inp[0]].size == 0:
+                self.inp = (self.inp[0], False)
+            else:
+                self.inp = False
             self.emit("input")
         elif k == "deadcall":
             # the pattern "pending call_out / sentence / input_to with captured values, owner destructed, then the
@@ -581,8 +589,7 @@ class C06(Prop):
                    "traces and on corrupted ones",
                    "func_ref of programs is not modelled as a counter (only its width is an obligation); swapping, load_binary "
                    "and total_num_prog_blocks are not modelled; replaceable() is not called",
-                   "one interactive user (create_test_interactive of the repository), input_to / get_char with flag 0 only; a "
-                   "callback that installs a new input_to is not generated",
+                   "one interactive user (create_test_interactive of the repository), input_to / get_char with flag 0 only",
                    "error injection (hook H2) happens at instruction dispatch only: an error raised in the middle of an efun is "
                    "covered only where LPC code can provoke it (the 25 'builder aborted half-way' groups); groups that build a cycle "
                    "while they run are excluded from the injection",
@@ -784,6 +791,10 @@ class C06(Prop):
             mk("sentence-owner-destructed-" + mode, mode,
                ["newobj 0", "newarr 0 2", "newmap 1", "sent 0 0 0 1", "sent 3 0 1 1", "inp 0 1 0", "free 0", "free 1",
                 "dest 0", "cleanup", "input", "drop 0"])
+            # re-entrancy: the callback installs a new input_to (arguments swapped); owner alive / destructed
+            mk("input_to-rearmed-" + mode, mode,
+               ["newobj 1", "newarr 0 2", "newmap 1", "inpr 1 0 1", "free 0", "input", "inp 1 1 1", "free 1", "input", "input",
+                "newcls 2", "inpr 1 2 2", "dest 1", "free 2", "input", "input", "cleanup", "drop 1"])
             mk("input_to-delivered-" + mode, mode,
                ["newobj 1", "newarr 0 2", "newfun 1 1 0", "inp 1 0 1", "inp 1 1 1", "free 0", "free 1", "input", "input",
                 "inp 1 0 0", "dest 1", "input", "cleanup", "drop 1"])
